@@ -28,4 +28,23 @@ pub uninterp spec fn spec_to_key(prefix: u8, k: Seq<u8>) -> Seq<u8>;
 #[verifier::external_body]
 pub fn to_key(prefix: u8, k: &mut Vec<u8>) -> (r: Vec<u8>) ensures r@ == spec_to_key(prefix, old(k)@) { unimplemented!() }
 pub const DERIV_PREFIX: u8 = 100; // b'd'
-pub struct Blake2bResult { pub h: [u8; 32] }
+// blake2_rfc: keyed-less Blake2b of the bytes fed in (A-crypto: collision resistance is not needed by the proofs)
+#[derive(PartialEq, Eq, Structural)]
+pub struct Blake2bResult { pub a: u128, pub b: u128 }
+pub uninterp spec fn spec_blake2b(n: usize, data: Seq<u8>) -> Blake2bResult;
+pub struct Blake2b { pub n: usize, pub st: Ghost<Seq<u8>> }
+impl Blake2b {
+    #[verifier::external_body]
+    pub fn new(n: usize) -> (r: Blake2b) ensures r.n == n && r.st@ == Seq::<u8>::empty() { unimplemented!() }
+    #[verifier::external_body]
+    pub fn update(&mut self, data: &[u8]) ensures final(self).n == old(self).n && final(self).st@ == old(self).st@ + data@ { unimplemented!() }
+    #[verifier::external_body]
+    pub fn finalize(self) -> (r: Blake2bResult) ensures r == spec_blake2b(self.n, self.st@) { unimplemented!() }
+}
+pub const SECRET_KEY_SIZE: usize = 32;
+// std::cell::RefCell (interior mutability holder of the raw batch): opaque
+pub struct RefCell<T> { pub v: T }
+impl<T> RefCell<T> {
+    #[verifier::external_body]
+    pub fn new(v: T) -> (r: RefCell<T>) { unimplemented!() }
+}
